@@ -32,9 +32,11 @@ def budget_s(tier):
 
 
 # (nodes, branches, id mode, kind filter, orientation mode)
-LEVELS_QUICK = [(2, 2, "perm", "admissible", "all"), (2, 3, "perm", "admissible", "all"), (3, 3, "perm", "admissible", "all"), (3, 4, "three", "admissible", "all"),
+# (2, 4): four parallel branches - the smallest non-degenerate circuits with two current sources (or two voltage-source-like
+# elements) next to a reactive element and a resistor
+LEVELS_QUICK = [(2, 2, "perm", "admissible", "all"), (2, 3, "perm", "admissible", "all"), (2, 4, "three", "admissible", "all"), (3, 3, "perm", "admissible", "all"), (3, 4, "three", "admissible", "all"),
                 (3, 5, "three", "twin", "two"), (4, 5, "two", "twin", "two")]
-LEVELS_THOROUGH = [(2, 2, "perm", "admissible", "all"), (2, 3, "perm", "admissible", "all"), (3, 3, "perm", "admissible", "all"), (3, 4, "perm", "admissible", "all"),
+LEVELS_THOROUGH = [(2, 2, "perm", "admissible", "all"), (2, 3, "perm", "admissible", "all"), (2, 4, "perm", "admissible", "all"), (3, 3, "perm", "admissible", "all"), (3, 4, "perm", "admissible", "all"),
                    (3, 5, "perm", "twin", "all"), (4, 4, "three", "admissible", "all"), (4, 5, "three", "twin", "all"), (4, 5, "two", "admissible", "two")]
 
 
@@ -259,6 +261,19 @@ def judge(d, res, wpal=None):
                 break
     except Exception as e:
         add_violation(res, "dc_gain", case, "DC solution", "%s: %s" % (type(e).__name__, e), "raised", kind="exception:" + type(e).__name__)
+    # the model object answers the same when asked again (after all the row queries above)
+    bump(res["hits"], "repeated_queries")
+    try:
+        pub2 = list(ssm.sources)
+        pub3 = list(ssm.sources)
+        rows_again = [np.asarray(ssm.d_row_current(i), float).reshape(-1) for i in ids] + [np.asarray(ssm.c_row_current(i), float).reshape(-1) for i in ids]
+        rows_third = [np.asarray(ssm.d_row_current(i), float).reshape(-1) for i in reversed(ids)] + [np.asarray(ssm.c_row_current(i), float).reshape(-1) for i in reversed(ids)]
+        same_rows = all(np.array_equal(a, b_) for a, b_ in zip(rows_again[:len(ids)], reversed(rows_third[:len(ids)]))) and \
+            all(np.array_equal(a, b_) for a, b_ in zip(rows_again[len(ids):], reversed(rows_third[len(ids):])))
+        if pub2 != pub or pub3 != pub or not same_rows:
+            add_violation(res, "input_order_is_sources", case, pub, [pub2, pub3, "rows equal: %s" % same_rows], "the model answers differently when the same question (source list, current rows) is asked again")
+    except Exception as e:
+        add_violation(res, "input_order_is_sources", case, pub, "%s: %s" % (type(e).__name__, e), "asking the model again raised", kind="exception:" + type(e).__name__)
     if nontrivial:
         res["nontrivial"] += 1
     if len(res["samples"]) < 2:
